@@ -22,6 +22,9 @@ type ubCtx struct {
 	params   map[*ssa.Parameter]int64
 	visiting map[ssa.Value]bool
 	depth    int
+	// at: the block from which the value is looked at; its dominating
+	// comparisons refine the bound of every sub-expression (i/8 where i < n)
+	at *ssa.BasicBlock
 }
 
 func ubAdd(a, b int64) int64 {
@@ -33,22 +36,34 @@ func ubAdd(a, b int64) int64 {
 
 // ubAt: upper bound of v as seen from block at (its dominating guards refine the bound).
 func (c *ubCtx) ubAt(v ssa.Value, at *ssa.BasicBlock) int64 {
+	old := c.at
+	c.at = at
 	b := c.ub(v)
+	c.at = old
 	if at == nil {
 		return b
 	}
 	for _, a := range ssaq.Atoms(ssaq.Guards(at)) {
 		var other ssa.Value
 		strict := false
+		scale := int64(1)
+		lhs, rhs := a.X, a.Y
+		if a.Op == token.GTR || a.Op == token.GEQ {
+			lhs, rhs = a.Y, a.X
+		}
+		// v*k < E bounds v as well
+		if m, ok := lhs.(*ssa.BinOp); ok && m.Op == token.MUL && lhs != v {
+			if k, isC := ssaq.ConstInt(m.Y); isC && k > 0 && m.X == v {
+				lhs, scale = v, k
+			} else if k, isC := ssaq.ConstInt(m.X); isC && k > 0 && m.Y == v {
+				lhs, scale = v, k
+			}
+		}
 		switch {
-		case a.Op == token.LSS && a.X == v:
-			other, strict = a.Y, true
-		case a.Op == token.LEQ && a.X == v:
-			other = a.Y
-		case a.Op == token.GTR && a.Y == v:
-			other, strict = a.X, true
-		case a.Op == token.GEQ && a.Y == v:
-			other = a.X
+		case (a.Op == token.LSS || a.Op == token.GTR) && lhs == v:
+			other, strict = rhs, true
+		case (a.Op == token.LEQ || a.Op == token.GEQ) && lhs == v:
+			other = rhs
 		default:
 			continue
 		}
@@ -62,6 +77,9 @@ func (c *ubCtx) ubAt(v ssa.Value, at *ssa.BasicBlock) int64 {
 		if strict {
 			o--
 		}
+		if scale > 1 && o >= 0 {
+			o /= scale
+		}
 		if o < b {
 			b = o
 		}
@@ -70,6 +88,20 @@ func (c *ubCtx) ubAt(v ssa.Value, at *ssa.BasicBlock) int64 {
 }
 
 func (c *ubCtx) ub(v ssa.Value) int64 {
+	b := c.ubStruct(v)
+	if c.at != nil && c.depth < 40 && !c.visiting[v] {
+		if _, isConst := v.(*ssa.Const); !isConst {
+			c.visiting[v] = true
+			if g := c.guardBound(v, c.at); g < b {
+				b = g
+			}
+			delete(c.visiting, v)
+		}
+	}
+	return b
+}
+
+func (c *ubCtx) ubStruct(v ssa.Value) int64 {
 	if c.depth > 60 {
 		return ubInf
 	}
@@ -166,6 +198,9 @@ func (c *ubCtx) ub(v ssa.Value) int64 {
 		}
 		return m
 	case *ssa.Call:
+		if bi, ok := x.Call.Value.(*ssa.Builtin); ok && bi.Name() == "len" && len(x.Call.Args) == 1 {
+			return c.ubLen(x.Call.Args[0], x.Block(), 0)
+		}
 		if bi, ok := x.Call.Value.(*ssa.Builtin); ok && bi.Name() == "min" {
 			m := ubInf
 			for _, a := range x.Call.Args {
@@ -175,7 +210,7 @@ func (c *ubCtx) ub(v ssa.Value) int64 {
 			}
 			return m
 		}
-		if f := x.Call.StaticCallee(); f != nil && len(f.Blocks) > 0 && len(f.Blocks) < 12 && f.Signature.Results().Len() == 1 {
+		if f := x.Call.StaticCallee(); f != nil && len(f.Blocks) > 0 && len(f.Blocks) < 40 && f.Signature.Results().Len() == 1 {
 			sub := &ubCtx{params: map[*ssa.Parameter]int64{}, visiting: map[ssa.Value]bool{}, depth: c.depth}
 			for i, p := range f.Params {
 				if i < len(x.Call.Args) {
@@ -204,15 +239,24 @@ func (c *ubCtx) guardBound(v ssa.Value, at *ssa.BasicBlock) int64 {
 	for _, a := range ssaq.Atoms(ssaq.Guards(at)) {
 		var other ssa.Value
 		strict := false
+		scale := int64(1)
+		lhs, rhs := a.X, a.Y
+		if a.Op == token.GTR || a.Op == token.GEQ {
+			lhs, rhs = a.Y, a.X
+		}
+		// v*k < E bounds v as well
+		if m, ok := lhs.(*ssa.BinOp); ok && m.Op == token.MUL && lhs != v {
+			if k, isC := ssaq.ConstInt(m.Y); isC && k > 0 && m.X == v {
+				lhs, scale = v, k
+			} else if k, isC := ssaq.ConstInt(m.X); isC && k > 0 && m.Y == v {
+				lhs, scale = v, k
+			}
+		}
 		switch {
-		case a.Op == token.LSS && a.X == v:
-			other, strict = a.Y, true
-		case a.Op == token.LEQ && a.X == v:
-			other = a.Y
-		case a.Op == token.GTR && a.Y == v:
-			other, strict = a.X, true
-		case a.Op == token.GEQ && a.Y == v:
-			other = a.X
+		case (a.Op == token.LSS || a.Op == token.GTR) && lhs == v:
+			other, strict = rhs, true
+		case (a.Op == token.LEQ || a.Op == token.GEQ) && lhs == v:
+			other = rhs
 		default:
 			continue
 		}
@@ -225,6 +269,9 @@ func (c *ubCtx) guardBound(v ssa.Value, at *ssa.BasicBlock) int64 {
 		}
 		if strict {
 			o--
+		}
+		if scale > 1 && o >= 0 {
+			o /= scale
 		}
 		if o < b {
 			b = o
@@ -279,4 +326,82 @@ func ruleNarrowingFits(ctx *Ctx, rule string, funcs []string) {
 			r.Fail("%s: no narrowing conversion to byte found in %s", rule, name)
 		}
 	}
+}
+
+// ubLen: an upper bound of len(x) as seen from block at: the high bound of a
+// slice expression, the maximum over the edges of a phi (each edge seen from
+// its predecessor, whose branch into the phi's block counts), or what the
+// dominating comparisons say about a len(x) taken of this very value.
+func (c *ubCtx) ubLen(x ssa.Value, at *ssa.BasicBlock, depth int) int64 {
+	if depth > 6 {
+		return ubInf
+	}
+	switch v := x.(type) {
+	case *ssa.Slice:
+		if v.High != nil {
+			return c.ubAt(v.High, at)
+		}
+		return c.ubLen(v.X, at, depth+1)
+	case *ssa.Phi:
+		if c.visiting[v] {
+			return ubInf
+		}
+		c.visiting[v] = true
+		defer delete(c.visiting, v)
+		m := int64(math.MinInt64)
+		for i, e := range v.Edges {
+			if b := c.ubLenOnEdge(e, v.Block().Preds[i], v.Block(), depth+1); b > m {
+				m = b
+			}
+		}
+		return m
+	}
+	return c.lenGuards(x, ssaq.Atoms(ssaq.Guards(at)))
+}
+
+func (c *ubCtx) ubLenOnEdge(x ssa.Value, pred, to *ssa.BasicBlock, depth int) int64 {
+	b := c.ubLen(x, pred, depth)
+	if iff, ok := pred.Instrs[len(pred.Instrs)-1].(*ssa.If); ok && pred.Succs[0] != pred.Succs[1] {
+		if g := c.lenGuards(x, ssaq.Atoms([]ssaq.Guard{{Cond: iff.Cond, True: pred.Succs[0] == to}})); g < b {
+			b = g
+		}
+	}
+	return b
+}
+
+// lenGuards: the bound the atoms give for a call len(x) of this value x.
+func (c *ubCtx) lenGuards(x ssa.Value, atoms []ssaq.Atom) int64 {
+	isLen := func(v ssa.Value) bool {
+		call, ok := v.(*ssa.Call)
+		if !ok || len(call.Call.Args) != 1 || call.Call.Args[0] != x {
+			return false
+		}
+		bi, ok := call.Call.Value.(*ssa.Builtin)
+		return ok && bi.Name() == "len"
+	}
+	b := ubInf
+	for _, a := range atoms {
+		lhs, rhs := a.X, a.Y
+		if a.Op == token.GTR || a.Op == token.GEQ {
+			lhs, rhs = a.Y, a.X
+		}
+		if lhs == nil || !isLen(lhs) {
+			continue
+		}
+		strict := a.Op == token.LSS || a.Op == token.GTR
+		if !strict && a.Op != token.LEQ && a.Op != token.GEQ {
+			continue
+		}
+		o := c.ub(rhs)
+		if o >= ubInf {
+			continue
+		}
+		if strict {
+			o--
+		}
+		if o < b {
+			b = o
+		}
+	}
+	return b
 }
